@@ -136,13 +136,13 @@ CLAIMS = {
                 "live classes on every run and every method body fingerprinted; Spec/Bundesbank.v states the 39 methods in the "
                 "Bundesbank's vocabulary and is validated by Examples on the 60 valid / 10 invalid Bundesbank test numbers the "
                 "suite quotes. Proved, for every ten-digit account number: the model's verdict under a method's registered class "
-                "equals the Bundesbank description's verdict (method_statement), for 37 of the 39 methods - 00 01 02 03 04 05 06 07 "
+                "equals the Bundesbank description's verdict (method_statement), for 38 of the 39 methods (C07_methods; C07_codes_obl: the registry knows no other code) - 00 01 02 03 04 05 06 07 "
                 "10 11 13 14 15 18 19 20 22 28 32 33 34 38 60 (C07_std: one theorem about the WeightedModulus template, "
                 "Proofs/GermanFacts.v, plus the obligation that each regenerated class row carries the Bundesbank parameters and "
-                "overrides no hook), 08 09 63 99 (wrappers), 88 26 25 16 23 91 17 21 61 24 (one extra rule or digit selection each); "
+                "overrides no hook), 08 09 63 99 (wrappers), 88 26 25 16 23 91 17 21 61 24 68 (one extra rule or digit selection each); "
                 "method 76: C07_m76_partial (equivalence whenever the weighted sum does not leave remainder 10) and C07_m76_refuted "
-                "(for remainder 10 it is false of the code as it stands: witness 0000005000 - the open known finding); not yet: 68 "
-                "(stream-checked only). C07_national / C07_unlisted / C07_unimplemented lift this through "
+                "(for remainder 10 it is false of the code as it stands: witness 0000005000 - the open known finding). "
+                "C07_national / C07_unlisted / C07_unimplemented lift this through "
                 "BBAN.validate_national_checksum for any bank index: a conforming German BBAN whose bank names a proven method is "
                 "accepted iff the Bundesbank method accepts its account number and otherwise raises InvalidBBANChecksum; unlisted "
                 "banks and unimplemented methods are accepted. Also "
@@ -152,7 +152,7 @@ CLAIMS = {
                 "of the registry and unlisted banks. "
                 "Found and fixed: methods 08, 11, 16, 23, 99 (five commits); open known finding: method 76 remainder 10.",
         "note": COMMON_NOTE + " Spec/Bundesbank.v is a hand transcription of the Bundesbank method descriptions (no network); retry clauses for omitted sub-account numbers (13, 63, 76) are deliberately excluded.",
-        "technique": "Coq proof (template theorem + per-method obligations on the generated class table, 37/39 methods; 76 proved up to, and refuted at, remainder 10) + extracted Bundesbank spec as oracle + correspondence",
+        "technique": "Coq proof (template theorem + per-method obligations on the generated class table, 38/39 methods; 76 proved up to, and refuted at, remainder 10) + extracted Bundesbank spec as oracle + correspondence",
         "design_ref": "DESIGN.md §4 C07",
     },
     "C08": {
